@@ -3,11 +3,15 @@ from .. import unitcheck as U
 
 ID = "C17"
 LEVEL = "exploration"
-RULE = ("all strings of 1..L symbols over a 20-symbol alphabet of troublesome bytes/characters (L=3 quick, 4 "
-        "thorough), all lists of <=3 one-symbol strings and all pairs of strings of <=2 symbols; for each: "
-        "split(quote(s))==[s], bash decodes the quoted form to the same bytes, split(join(list))==list, "
-        "Path::quote==arg::quote. A case is non-trivial when quoting was needed (style '..' or $'..'); "
-        "distinct_nontrivial counts those strings/lists (every enumerated string is distinct).")
+RULE = ("all strings of 1..L symbols over a 34-symbol alphabet (L=3 quick, 4 thorough): troublesome bytes/characters "
+        "(blank, tab, LF, quotes, backslash, $, `, *, #, ~, =, !, non-ASCII, U+00A0, DEL, invalid UTF-8), every other "
+        "ASCII character bash gives a meaning to (? [ ] { } , ; & | < > ( )) and '-'; option- and assignment-shaped "
+        "arguments (-XY, --XY, --X=Y, --aX=Y, -X=Y, X=Y, aXaY, /X/Y, each also after a '--' argument) for all X, Y of "
+        "<=1 symbol; all lists of <=3 one-symbol strings and all pairs of strings of <=2 symbols (pairs over the 20 "
+        "core symbols in quick, all 34 in thorough); for every rendering fclones prints for a list - join (Arg::quote "
+        "per argument), quote() and Path::quote() - fclones' split() and bash (run in a directory holding files that "
+        "unquoted glob characters would match) must return exactly the list. A case is non-trivial when quoting was "
+        "needed (style '..' or $'..'); distinct_nontrivial counts those strings/lists.")
 ASSUMPTIONS = ["bash 5 in non-interactive mode with HOME=/fcv-home-sentinel is the reference shell",
                "strings longer than the bound and the 'randomly for long strings' clause are not covered"]
 SHARDS = 16
@@ -20,7 +24,9 @@ def prepare(tier):
 def cases(tier, seed):
     L = 3 if tier == "quick" else 4
     out = [{"mode": "strings", "len": L, "shard": "%d/%d" % (i, SHARDS)} for i in range(SHARDS)]
-    out += [{"mode": "lists", "len": 2, "shard": "%d/%d" % (i, SHARDS)} for i in range(SHARDS)]
+    out += [{"mode": "lists", "len": 2, "shard": "%d/%d" % (i, SHARDS), "alpha": "core" if tier == "quick" else "full"}
+            for i in range(SHARDS)]
+    out += [{"mode": "templates", "len": 1, "shard": "%d/%d" % (i, SHARDS)} for i in range(SHARDS)]
     return out
 
 
@@ -30,7 +36,9 @@ def evaluate(case):
     else:
         args = ["quote", "--len", str(case["len"]), "--shard", case["shard"]]
         if case["mode"] == "lists":
-            args.append("--lists")
+            args += ["--lists", "--alpha", case.get("alpha", "core")]
+        elif case["mode"] == "templates":
+            args.append("--templates")
         viol, summ = U.run_unit(args)
     vs = []
     for v in viol:
